@@ -20,6 +20,18 @@ mod = __import__(cfg["module"])
 mem = Memory(cfg["dir"] + "/cache", verbose=0, compress=cfg.get("compress", False))
 holders = {}
 wrappers = {}
+RECACHE = cfg.get("recache")
+
+
+def cache(fn, **kw):
+    """Memory.cache, optionally applied to an already cached wrapper (mem.cache(mem.cache(f)), a re-created Memory on the
+    wrapper): the result must be an equivalent wrapper of the same function"""
+    w = mem.cache(fn, **kw)
+    if RECACHE == "twice":
+        w = mem.cache(w, **kw)
+    elif RECACHE == "other-memory":
+        w = Memory(cfg["dir"] + "/cache", verbose=0, compress=cfg.get("compress", False)).cache(w, **kw)
+    return w
 
 
 def get_pair(fi, step):
@@ -32,7 +44,7 @@ def get_pair(fi, step):
         if key is None or key not in wrappers:
             h = mod.Holder(tag)
             plain = getattr(h, f["name"])
-            w = (plain, mem.cache(plain, ignore=f["ignore"] or None))
+            w = (plain, cache(plain, ignore=f["ignore"] or None))
             if key is None:
                 return w
             wrappers[key] = w
@@ -42,7 +54,7 @@ def get_pair(fi, step):
         key = (fi, "cls", tag)
         if key not in wrappers:
             plain = getattr({"h0": mod.Left, "h1": mod.Right}.get(tag, mod.Base), f["name"])
-            wrappers[key] = (plain, mem.cache(plain, ignore=f["ignore"] or None))
+            wrappers[key] = (plain, cache(plain, ignore=f["ignore"] or None))
         return wrappers[key]
     if f["kind"] == "partial":
         key = (fi, "partial")
@@ -53,7 +65,7 @@ def get_pair(fi, step):
         return wrappers[key]
     if fi not in wrappers:
         plain = getattr(mod, f["name"])
-        wrappers[fi] = (plain, mem.cache(plain, ignore=f["ignore"] or None))
+        wrappers[fi] = (plain, cache(plain, ignore=f["ignore"] or None))
     return wrappers[fi]
 
 
